@@ -845,7 +845,7 @@ def main():
         assumptions=getattr(spec, "ASSUMPTIONS", []),
         wall_s=round(wall, 2), violations=len(violations))
     os.makedirs(os.path.join(VERIF, "evidence"), exist_ok=True)
-    if not a.only:
+    if not a.only and not os.environ.get("VERIF_NO_EVIDENCE"):	# seed runs against scratch worktrees set VERIF_NO_EVIDENCE
         with open(os.path.join(VERIF, "evidence", pid + ".json"), "w") as f:
             json.dump(ev, f, indent=1)
     say("%s %s: %d obligations, %d discharged, %d violations, %d inconclusive, %.0fs" %
